@@ -1264,7 +1264,8 @@ func (e *env) agr(body string) {
 }
 
 // genAgr (round 4): the three real consumers side by side on arbitrary well-printed parameter lists; the driver's oracle demands
-// equal styles on the lists of Model.Sgr.agreeExact (Props.C18Agree.consumers_agree_iff), never a panic anywhere.
+// no panic anywhere and equal styles on producible sequences; the three model columns (which agree exactly on Model.Sgr.agreeExact:
+// Props.C18Agree.consumers_agree_iff) must equal the three real ones.
 func (e *env) genAgr(rng *gen.Rng) {
 	for _, a := range agrVocab {
 		e.agr(a)
